@@ -4,6 +4,7 @@ import (
 	"fmt"
 	"sort"
 	"strings"
+	"unicode/utf8"
 )
 
 // phrases lists the phrases a @pm-family case denotes, by the documented
@@ -223,6 +224,8 @@ func pmWant(ph []string, in string) *want {
 			}
 		}
 		switch {
+		case hasHigh(in) && utf8.RuneCountInString(in) < minL && len(in) >= minL:
+			return "pm:false-negative:input-with-fewer-characters-than-the-shortest-phrase-has-bytes"
 		case len(in) < maxL:
 			return "pm:false-negative:input-shorter-than-the-longest-phrase"
 		case len(in) == minL:
